@@ -11,8 +11,9 @@ read from the working tree by AST (fail closed) -> lean/Mistral/Gen/HeartbeatDef
   * mistral/db/v2/sqlalchemy/models.py ActionExecution.last_heartbeat default:
     utc_now_sec() + timedelta(seconds=CONF.action_heartbeat.first_heartbeat_timeout);
   * mistral/services/action_heartbeat_checker.py: start() is enabled by `interval and max_missed`,
-    the expiration date is now - max_missed * interval, only DBEntityNotFoundError is caught per
-    action and the handler is `continue`;
+    the expiration date is now - max_missed * interval; per action: whether the task / workflow lookup
+    is guarded by `if action_ex.task_execution_id`, and which try blocks (lookup, on_action_complete)
+    have a handler that lets the loop go on;
   * mistral/engine/default_engine.py process_action_heartbeats -> update_action_execution_heartbeat
     sets last_heartbeat to utc_now_sec();
   * mistral/engine/workflow_handler.py: the delays with which the integrity check is scheduled at
@@ -207,25 +208,71 @@ def _checker_facts(tree):
                     ok = True
     if not ok:
         raise Refuse('exp_date = now - timedelta(seconds=max_missed * interval) not found')
-    # per-action handlers inside the for loop
-    caught = []
-    for st in ast.walk(h):
-        if isinstance(st, ast.For):
-            for t in ast.walk(st):
-                if isinstance(t, ast.Try):
-                    for hd in t.handlers:
-                        typ = hd.type
-                        tn = getattr(typ, 'attr', getattr(typ, 'id', None)) if typ is not None else 'BaseException'
-                        if isinstance(typ, ast.Tuple):
-                            raise Refuse('tuple of exception types in the per-action handler')
-                        last = hd.body[-1]
-                        if not isinstance(last, ast.Continue):
-                            raise Refuse('per-action handler does not `continue`')
-                        covers_complete = any(
-                            isinstance(c, ast.Call) and getattr(c.func, 'attr', '') == 'on_action_complete'
-                            for b in t.body for c in ast.walk(b))
-                        caught.append((tn, covers_complete))
-    return caught
+    # per-action try blocks: direct statements of the `for action_ex in action_exs` body
+    loops = [st for st in ast.walk(h) if isinstance(st, ast.For) and getattr(st.target, 'id', '') == 'action_ex']
+    if len(loops) != 1:
+        raise Refuse('expected exactly one `for action_ex in ...` loop, found %d' % len(loops))
+    body = loops[0].body
+    caught = []          # (exception type name, try covers on_action_complete?, try covers the task lookup?)
+    lookup_guarded = None
+
+    def calls(nodes, attr):
+        return [c for n in nodes for c in ast.walk(n) if isinstance(c, ast.Call) and getattr(c.func, 'attr', '') == attr]
+
+    for idx, st in enumerate(body):
+        inner_try = [t for t in ast.walk(st) if isinstance(t, ast.Try)]
+        if inner_try and not isinstance(st, ast.Try):
+            raise Refuse('nested try block inside the per-action loop')
+        if not isinstance(st, ast.Try):
+            if calls([st], 'get_task_execution') or calls([st], 'on_action_complete'):
+                # outside any try: an exception escapes the pass
+                if calls([st], 'get_task_execution'):
+                    caught.append((None, False, True))
+                    lookup_guarded = _lookup_guard([st])
+                if calls([st], 'on_action_complete'):
+                    caught.append((None, True, False))
+            continue
+        if st.finalbody or st.orelse:
+            raise Refuse('per-action try with else/finally')
+        cov_complete = bool(calls(st.body, 'on_action_complete'))
+        cov_lookup = bool(calls(st.body, 'get_task_execution'))
+        if cov_lookup:
+            lookup_guarded = _lookup_guard(st.body)
+        for hd in st.handlers:
+            typ = hd.type
+            if isinstance(typ, ast.Tuple):
+                raise Refuse('tuple of exception types in the per-action handler')
+            tn = getattr(typ, 'attr', getattr(typ, 'id', None)) if typ is not None else 'BaseException'
+            for n in hd.body:
+                for x in ast.walk(n):
+                    if isinstance(x, (ast.Raise, ast.Return, ast.Break)):
+                        raise Refuse('per-action handler re-raises / leaves the loop')
+            last = hd.body[-1]
+            if not isinstance(last, ast.Continue) and idx != len(body) - 1:
+                raise Refuse('per-action handler neither `continue`s nor ends the loop body')
+            caught.append((tn, cov_complete, cov_lookup))
+    if lookup_guarded is None:
+        raise Refuse('task lookup (get_task_execution) not found in the per-action loop')
+    if not any(c for _, c, _ in caught):
+        raise Refuse('action_handler.on_action_complete not found in the per-action loop')
+    return caught, lookup_guarded
+
+
+def _lookup_guard(nodes):
+    """is db_api.get_task_execution(action_ex.task_execution_id) only reached under
+    `if action_ex.task_execution_id:` ?"""
+    for n in nodes:
+        for x in ast.walk(n):
+            if isinstance(x, ast.If):
+                inside = any(isinstance(c, ast.Call) and getattr(c.func, 'attr', '') == 'get_task_execution'
+                             for b in x.body for c in ast.walk(b))
+                if inside:
+                    t = x.test
+                    if isinstance(t, ast.Attribute) and t.attr == 'task_execution_id' and \
+                            getattr(t.value, 'id', '') == 'action_ex' and not x.orelse:
+                        return True
+                    raise Refuse('task lookup under a condition that is not understood: %s' % ast.dump(t))
+    return False
 
 
 def _integrity_facts(tree):
@@ -310,14 +357,19 @@ def generate(repo):
     fd = _first_deadline(mod_t)
     if fd not in (None, 'first_heartbeat_timeout'):
         raise Refuse('last_heartbeat default uses option %s' % fd)
-    caught = _checker_facts(chk_t)
+    caught, lookup_guarded = _checker_facts(chk_t)
     resched, first, task_lt, child_gt = _integrity_facts(wfh_t)
     _heartbeat_update(api_t)
-    catches_not_found = any(t == 'DBEntityNotFoundError' and not cov for t, cov in caught)
-    catches_all_around_complete = any(t in ('Exception', 'BaseException', 'MistralException') and cov for t, cov in caught)
-    for t, cov in caught:
-        if t not in ('DBEntityNotFoundError', 'Exception', 'BaseException', 'MistralException'):
+    known = ('DBEntityNotFoundError', 'Exception', 'BaseException', 'MistralException')
+    for t, cov_c, cov_l in caught:
+        if t is not None and t not in known:
             raise Refuse('per-action handler for %s not understood' % t)
+    # a failed task / workflow lookup (DBEntityNotFoundError) is survived
+    catches_not_found = any(cov_l and t in known for t, _, cov_l in caught)
+    # an exception of on_action_complete that is a MistralException (e.g. InvalidActionException of an
+    # unknown action definition) is survived
+    catches_all_around_complete = any(cov_c and t in ('Exception', 'BaseException', 'MistralException')
+                                      for t, cov_c, _ in caught)
     text = '''-- GENERATED by translate/heartbeat_defaults.py from %s; do not edit.
 namespace Mistral.Gen.HeartbeatDefaults
 -- [action_heartbeat] defaults (all options have min=0)
@@ -340,8 +392,10 @@ def firstDeadlineAddsTimeout : Bool := %s
 -- handle_expired_actions, per action
 /-- DBEntityNotFoundError of the task / workflow lookups is caught and the loop continues -/
 def checkerSkipsMissingParent : Bool := %s
-/-- an exception of action_handler.on_action_complete is caught per action -/
+/-- a MistralException of action_handler.on_action_complete is caught per action -/
 def checkerCatchesCompleteErrors : Bool := %s
+/-- the task / workflow lookup is only done when action_ex.task_execution_id is set -/
+def checkerGuardsTaskLookup : Bool := %s
 -- _check_and_fix_integrity
 def integrityReschedule : Nat := %d
 def integrityFirstDelay : Nat := %d
@@ -352,5 +406,5 @@ def integrityChildCmpGt : Bool := %s
 end Mistral.Gen.HeartbeatDefaults
 ''' % (', '.join(srcs), mm, ci, bs, ft, ('(%d)' % idl), ibs, _b(strict), _b(f_sync), _b(f_run), _b(lim),
        _b(fd == 'first_heartbeat_timeout'), _b(catches_not_found), _b(catches_all_around_complete),
-       resched, first, _b(task_lt), _b(child_gt))
+       _b(lookup_guarded), resched, first, _b(task_lt), _b(child_gt))
     return {'files': {'HeartbeatDefaults': text}, 'sources': srcs}
